@@ -194,7 +194,9 @@ def make_script(rng, name, kind=None, plan=None, nkeys=None, length=None, clone_
     g.header()
     if calldep in ("hash", "both"):
         g.emit("hashrule calldep")
-    if calldep in ("eq", "both"):
+    if calldep in ("hash_near", "both_near"):
+        g.emit("hashrule calldep_near")
+    if calldep in ("eq", "both", "both_near"):
         g.emit("eqrule calldep")
     steps = 0
     while steps < length:
